@@ -29,6 +29,7 @@ import (
 	"github.com/yandex/pandora/components/providers/grpc/grpcjson"
 	httpprov "github.com/yandex/pandora/components/providers/http"
 	httpconf "github.com/yandex/pandora/components/providers/http/config"
+	phttpimport "github.com/yandex/pandora/components/phttp/import"
 	scnimport "github.com/yandex/pandora/components/providers/scenario/import"
 	"github.com/yandex/pandora/core"
 	coreimport "github.com/yandex/pandora/core/import"
@@ -63,6 +64,8 @@ func malformedChild(args []string) {
 	mfFS = afero.NewMemMapFs()
 	coreimport.Import(mfFS)
 	scnimport.Import(mfFS)
+	phttpimport.Import(mfFS)
+	zapExitToPanic() // log.Fatal of cli.readConfig is observed in-process (confdecode_rec.go)
 
 	var jobs []mfJob
 	for _, m := range vt.ReadNDJSON(*jobsPath) {
@@ -295,6 +298,10 @@ func mfHTTPProviderH(format, mode string, data []byte, headers []string) func() 
 }
 
 func mfHTTPProviderHP(format, mode string, data []byte, headers []string, passes int) func() (core.Provider, error) {
+	return mfHTTPProviderHPL(format, mode, data, headers, passes, 0)
+}
+
+func mfHTTPProviderHPL(format, mode string, data []byte, headers []string, passes, limit int) func() (core.Provider, error) {
 	return func() (core.Provider, error) {
 		fs := afero.NewMemMapFs()
 		if err := afero.WriteFile(fs, "/ammo", data, 0o644); err != nil {
@@ -304,7 +311,7 @@ func mfHTTPProviderHP(format, mode string, data []byte, headers []string, passes
 		if format == "jsonarray" {
 			dec = httpconf.DecoderJSONLine
 		}
-		conf := httpconf.Config{Decoder: dec, File: "/ammo", Passes: uint(passes), Preload: mode == "preload",
+		conf := httpconf.Config{Decoder: dec, File: "/ammo", Passes: uint(passes), Limit: uint(limit), Preload: mode == "preload",
 			ContinueOnError: mode == "continue", Headers: headers}
 		return httpprov.NewProvider(fs, conf)
 	}
@@ -315,24 +322,36 @@ func mfGRPCProvider(mode string, data []byte) func() (core.Provider, error) {
 }
 
 func mfGRPCProviderP(mode string, data []byte, passes int) func() (core.Provider, error) {
+	return mfGRPCProviderPL(mode, data, passes, 0)
+}
+
+func mfGRPCProviderPL(mode string, data []byte, passes, limit int) func() (core.Provider, error) {
 	return func() (core.Provider, error) {
 		fs := afero.NewMemMapFs()
 		if err := afero.WriteFile(fs, "/ammo", data, 0o644); err != nil {
 			machinery("%v", err)
 		}
-		return grpcjson.NewProvider(fs, grpcjson.Config{File: "/ammo", Passes: passes, ContinueOnError: mode == "continue"}), nil
+		return grpcjson.NewProvider(fs, grpcjson.Config{File: "/ammo", Passes: passes, Limit: limit, ContinueOnError: mode == "continue"}), nil
 	}
 }
 
 // file passes requested from the provider (Malformed!NPasses)
 func mfPasses(c mfCase) int {
 	switch c.Cls {
-	case "cut":
+	case "cut", "rerun":
 		return vt.Int(c.Arg[1])
 	case "long":
 		return vt.Int(c.Arg[2])
 	}
 	return 1
+}
+
+// delivery limit requested from the provider (Malformed!Limit)
+func mfLimit(c mfCase) int {
+	if c.Cls == "rerun" {
+		return vt.Int(c.Arg[2])
+	}
+	return 0
 }
 
 func mfHeadline(req *http.Request) string {
@@ -348,9 +367,9 @@ func mfRunAmmoCase(c mfCase) mfLine {
 	passes := mfPasses(c)
 	var r mfRunResult
 	if c.Format == "grpcjson" {
-		r = mfRunProvider(mfGRPCProviderP(c.Mode, data, passes), mfProjectGRPC, 0)
+		r = mfRunProvider(mfGRPCProviderPL(c.Mode, data, passes, mfLimit(c)), mfProjectGRPC, 0)
 	} else {
-		r = mfRunProvider(mfHTTPProviderHP(c.Format, c.Mode, data, mfConfigHeaders(c.Cls), passes), mfProjectHTTP, 0)
+		r = mfRunProvider(mfHTTPProviderHPL(c.Format, c.Mode, data, mfConfigHeaders(c.Cls), passes, mfLimit(c)), mfProjectHTTP, 0)
 	}
 	byTag := map[string]mfEntry{}
 	if c.Cls == "long" {
